@@ -17,6 +17,8 @@ CLAUSE = CLAUSE + (" (4) RF-TAB: the Hamming 8/4 decoding table _vbi_hamm8_inv[2
                    "_vbi_hamm8_fwd[16] entry by entry: every code word and each of its eight single-bit neighbours decodes to "
                    "the encoded nibble, every other byte to a negative value (so one correctable bit error cannot change a "
                    "decoded value and a double error is refused); the 24/18 parity/error tables have their declared sizes.")
+CLAUSE = CLAUSE + (" (5) RF-IVL: every subscript of a constant-size array in vps.c, packet-830.c and pdc.c is in bounds under the "
+                   "function's guards (month_days[month - 1] behind the unsigned `month - 1 < 12` test, the BCD and CNI tables).")
 NOT_DECIDED = ("BCD/MJD/UTC arithmetic of 8/30 format 1 (numeric), the Hamming 24/18 arithmetic, the TR 101 231 0xDC3 special case (documented exception, its branch "
                "is excluded from the bit-provenance comparison).")
 
@@ -96,7 +98,8 @@ def run(ctx, run):
 
     # ---- RF-BITS ----------------------------------------------------------------
     bits.check_vps(ctx, run)
-
+    from .. import sweep
+    sweep.run(ctx, run, [UNIT_VPS, UNIT_830, "src/pdc.c"], {}, 90)
 
 def _neg_selftest(ctx, run):
     from .. import selftest
